@@ -246,7 +246,7 @@ def _emissions_funding(ctx):
     the transfer is grossed up for the Token-2022 fee."""
     import re
     prog = ctx.prog
-    for nm, want_pool in (("lending_pool_setup_emissions", "from_num(p4)"), ("lending_pool_update_emissions_parameters", "checked_add(from_num(p4),load_mut(p1.accounts.bank).emissions_remaining)")):
+    for nm, want_pool in (("lending_pool_setup_emissions", "p4"), ("lending_pool_update_emissions_parameters", "checked_add(load_mut(p1.accounts.bank).emissions_remaining,p4)")):
         fs = [x for x in prog.find_fns({"name": nm, "crate": "marginfi"}) if "::instructions::" in x.key]
         if len(fs) != 1:
             ctx.missing("C19.R3", nm)
